@@ -170,6 +170,7 @@ func (circFamily) Gen(r *rand.Rand, i int, tier string) *hc.Case {
 		return t
 	}
 	normal := p.Mode == "normal"
+	setBack := r.Intn(8) == 0 // a substitute clock that is sometimes set back (C12: behaviour follows the TimeKeeper, whatever it says)
 	for len(ops) < nops {
 		runIDs, fbIDs := phaseIDs("run"), phaseIDs("fb")
 		open := normal && h.c.IsOpen()
@@ -229,6 +230,9 @@ func (circFamily) Gen(r *rand.Rand, i int, tier string) *hc.Case {
 			d := tc[r.Intn(len(tc))]
 			if d < 0 {
 				d = 0
+			}
+			if setBack && r.Intn(3) == 0 {
+				d = -hc.Pick(r, int64(1), ms, sec, 3*sec)
 			}
 			do(circOp{K: "tick", D: d})
 		case x < 84 && normal:
